@@ -25,6 +25,14 @@ func pbVarintMin(b []byte, v uint64) []byte { // canonical varint of a concrete 
 // reference importer can emit (balanced or trickle layout, raw or dag-pb leaves,
 // CIDv0 or v1) and returns its link, content and cumulative size.
 func menuNode(ls *ipld.LinkSystem, depth int, v0 bool) (datamodel.Link, []byte, uint64) {
+	return menuNodeAt(ls, depth, v0, true)
+}
+
+// menuNodeAt: below the top node of a deep (depth>=2) DAG the menu is slimmed to two
+// shapes per level (a 1-byte leaf, or an interior node over two such subtrees with
+// its metadata chosen freely), which keeps the depth-2 exploration finite.
+func menuNodeAt(ls *ipld.LinkSystem, depth int, v0 bool, top bool) (datamodel.Link, []byte, uint64) {
+	slim := !top && verifrt.Param("deep", 0) >= 1
 	storePB := func(n datamodel.Node) datamodel.Link {
 		pfx := keyLinkPrefix(0x70)
 		if v0 {
@@ -35,13 +43,24 @@ func menuNode(ls *ipld.LinkSystem, depth int, v0 bool) (datamodel.Link, []byte, 
 		verifrt.Assert(err == nil, "harness:store")
 		return l
 	}
-	kind := verifrt.Choose(4)
-	if depth == 0 && kind == 3 {
-		kind = 0
+	kind := 0
+	if slim {
+		if depth > 0 && verifrt.Choose(2) == 1 {
+			kind = 3
+		}
+	} else {
+		kind = verifrt.Choose(4)
+		if depth == 0 && kind == 3 {
+			kind = 0
+		}
 	}
 	switch kind {
 	case 0: // raw leaf (raw-leaves mode; always CIDv1)
-		c := verifrt.Bytes(verifrt.Choose(3))
+		n0 := 1
+		if !slim {
+			n0 = verifrt.Choose(3)
+		}
+		c := verifrt.Bytes(n0)
 		if v0 {
 			// CIDv0 DAGs have dag-pb leaves only
 			d := pbField(nil, 1, 2)
@@ -80,7 +99,7 @@ func menuNode(ls *ipld.LinkSystem, depth int, v0 bool) (datamodel.Link, []byte, 
 			cd = 0
 			depths++
 		}
-		l, c, sz := menuNode(ls, cd, v0)
+		l, c, sz := menuNodeAt(ls, cd, v0, false)
 		content = append(content, c...)
 		sizes = append(sizes, uint64(len(c)))
 		total += sz
